@@ -144,11 +144,12 @@ var _ = late(func() {
 // "avoid one allocation per chunk" optimisation: chunks of [0 1 2 3] by 2 collected into a slice read [[2 3] [2 3]]).
 var _ = late(func() {
 	p := properties["C07"]
-	p.Rules = append(p.Rules, &Rule{ID: "C07.yielded-items-handed-over", Floor: 2, Clause: "every slice returned by a Next/Peek of an iterator or stream wrapper is either built in that call / pulled from the source, or comes from a buffer field of the wrapper that is replaced by a fresh buffer (or nil) between the read and the return on every path: a later call never writes into a slice already handed out",
+	p.Rules = append(p.Rules, &Rule{ID: "C07.yielded-items-handed-over", Floor: 1, Clause: "every slice returned by a Next/Peek of an iterator or stream wrapper is either built in that call / pulled from the source, or comes from a buffer field of the wrapper that is replaced by a fresh buffer (or nil) between the read and the return on every path: a later call never writes into a slice already handed out",
 		Run: func(c *Ctx, r *R) {
 			for _, rel := range []string{"iterator", "stream"} {
 				fns := c.funcsOfPkg(rel)
 				sort.Slice(fns, func(i, j int) bool { return c.nameOf(fns[i]) < c.nameOf(fns[j]) })
+				var work []*ssa.Function
 				for _, fn := range fns {
 					if fn.Parent() != nil || fn.Signature.Recv() == nil || (fn.Name() != "Next" && fn.Name() != "Peek") || fn.Signature.Results().Len() == 0 {
 						continue
@@ -156,6 +157,14 @@ var _ = late(func() {
 					if _, isSlice := fn.Signature.Results().At(0).Type().Underlying().(*types.Slice); !isSlice {
 						continue
 					}
+					work = append(work, fn)
+				}
+				queued := map[*ssa.Function]bool{}
+				for _, fn := range work {
+					queued[fn] = true
+				}
+				for wi := 0; wi < len(work); wi++ {
+					fn := work[wi]
 					name := c.nameOf(fn)
 					// the field loads a value is built from
 					var roots func(v ssa.Value, seen map[ssa.Value]bool, out *[]*ssa.UnOp)
@@ -177,6 +186,15 @@ var _ = late(func() {
 							if bi, ok := x.Call.Value.(*ssa.Builtin); ok && bi.Name() == "append" && len(x.Call.Args) > 0 {
 								roots(x.Call.Args[0], seen, out)
 							}
+							// a helper of the wrapper that hands the chunk out (s.takeChunk()): decided at the helper's own returns
+							if cal := staticCallee(&x.Call); cal != nil && cal.Blocks != nil && cal.Parent() == nil && rootFn(origin(cal)).Pkg == rootFn(fn).Pkg && cal.Signature.Results().Len() >= 1 {
+								if _, isSlice := cal.Signature.Results().At(0).Type().Underlying().(*types.Slice); isSlice && !queued[origin(cal)] {
+									queued[origin(cal)] = true
+									work = append(work, origin(cal))
+								}
+							}
+						case *ssa.Extract:
+							roots(x.Tuple, seen, out)
 						case *ssa.UnOp:
 							if x.Op != token.MUL {
 								return
